@@ -20,7 +20,7 @@ import (
 
 func init() {
 	register(&Prop{ID: "C14", Run: c14Run,
-		Rule: "foreach: item source {literal items, list query, dotted list query, leaf query, container query, list of containers, missing path} x variable {default, named} x body {ext trace, log, both} + logging child + failing position {none, top-level abort/ext-fail (first item), conditional child at the first flagged item, non-boolean condition}; loop: bound n in 0..6 x failure in iteration k (body or post) x counter written by post or body x with/without init; call: argsPath {default, single key, dotted 2 and 3, templated} x static/templated argument x nested callee with its own argsPath x failure {none, inner, outer} x pre-existing data at the path's parent; defs: all sequences of length<=4 over {define f=first, define f=second, define g, call f, call g, call undefined}; rand: random nested programs (forEach in forEach, loops and calls inside bodies, set/template bodies, depth<=3) compared with the model only. Every program runs twice (Go structs, generated YAML). Non-trivial: at least one iteration / call actually executes. Distinct = distinct canonical case JSON.",
+		Rule: "foreach: item source {literal items, list query, dotted list query, leaf query, container query, list of containers, missing path} x variable {default, named} x body {ext trace, log, both} + logging child + failing position {none, top-level abort/ext-fail (first item), conditional child at the first flagged item, non-boolean condition}; loop: bound n in 0..6 x failure in iteration k (body or post) x counter written by post or body x with/without init; call: argsPath {default, single key, dotted 2 and 3, templated} x static/templated argument x nested callee with its own argsPath x failure {none, inner, outer} x pre-existing data at the path's parent; callrep: ONE call operation that runs m = 0..5 times with argument templates (top-level and nested) whose input changes between the runs — in a loop body (input = counter), in a forEach body (input = item; call directly among the body's operations or in a `steps` child; literal items / list query) or as the same operation value passed to Execute repeatedly — x argsPath x failure from the k-th run on: the m-th run must see the arguments rendered against the data of the m-th run (closed-form trace); defs: all sequences of length<=4 over {define f=first, define f=second, define g, call f, call g, call undefined}; rand: random nested programs (forEach in forEach, loops and calls inside bodies, set/template bodies, depth<=3) compared with the model only. Every program runs twice (Go structs, generated YAML). Non-trivial: at least one iteration / call actually executes. Distinct = distinct canonical case JSON.",
 		Assumptions: []string{
 			"template semantics owned by the model: literal text and {{ .a.b }} field chains of scalars; strconv.ParseBool",
 			"loop counters are written by the harness' own ext action `inc` (data[id]++, data[id_go] := data[id] < n, data[id_end] := !(data[id] < n)), mirrored by the model",
@@ -386,6 +386,182 @@ func (p *c14Call) expect() (evs [][]any, failed bool) {
 	return evs, false
 }
 
+// ---------------------------------------------------------------- repeated calls
+
+// c14CallRep: ONE call operation that runs several times while its argument templates' inputs change
+// between the runs — inside a loop (counter), inside a forEach (item; directly in the body's operations,
+// which are cloned per item, or in a `steps` child, which is not), or by executing the same operation
+// value repeatedly.  "call runs the named callable with its rendered arguments visible at the arguments
+// path" holds for EVERY run: the m-th run sees the arguments rendered against the data of the m-th run.
+type c14CallRep struct {
+	Mode     string   `json:"mode"`     // loop | foreach | exec
+	Place    string   `json:"place"`    // ops | child : where the call sits in the loop / forEach body
+	N        int      `json:"n"`        // loop: bound; exec: number of Execute(call) calls
+	Items    []string `json:"items"`    // foreach: the items
+	Query    bool     `json:"query"`    // foreach: items come from a list query instead of literal items
+	Var      *string  `json:"var"`      // foreach: variable
+	ArgsPath *string  `json:"argsPath"` // nil | p | p.q | {{ .where }}
+	Nested   bool     `json:"nested"`   // the changing input is also used inside a nested argument map
+	Const    bool     `json:"const"`    // a constant argument next to the templated one
+	Log      bool     `json:"log"`      // the body also logs the changing input itself
+	K        int      `json:"k"`        // 0: no failure; else the callable fails from its k-th run on
+}
+
+func (p *c14CallRep) path() string {
+	c := c14Call{ArgsPath: p.ArgsPath}
+	return c.path()
+}
+
+// the changing input as a template
+func (p *c14CallRep) in() string {
+	if p.Mode == "foreach" {
+		return "{{ ." + c14VarName(p.Var) + " }}"
+	}
+	return "{{ .i }}"
+}
+
+func (p *c14CallRep) data() W {
+	d := map[string]any{"where": "dyn.z", "keep": map[string]any{"x": 1}}
+	if p.Mode == "foreach" {
+		if p.Query {
+			items := []any{}
+			for _, s := range p.Items {
+				items = append(items, s)
+			}
+			d["xs"] = items
+		}
+	} else {
+		d["i"], d["i_go"], d["i_end"] = 0, 0 < p.N, !(0 < p.N)
+	}
+	return plainWire(d)
+}
+
+func (p *c14CallRep) prog() []c12Op {
+	ap := p.path()
+	msg := "f:{{ ." + ap + ".n }}"
+	args := map[string]any{"n": p.in()}
+	if p.Nested {
+		msg += "/{{ ." + ap + ".sub.z }}"
+		args["sub"] = map[string]any{"z": "s" + p.in() + "."}
+	}
+	if p.Const {
+		msg += "/{{ ." + ap + ".c }}"
+		args["c"] = "C"
+	}
+	f := &c12Act{Name: "f", Ops: []c12Op{{K: "log", Msg: msg}}}
+	if p.K > 0 {
+		f.Children = []c12Act{
+			{Name: "failing", Order: 2, When: sp("{{ .j_end }}"), Ops: []c12Op{{K: "abort", Msg: "stop at {{ .j }}"}}},
+			{Name: "countj", Order: 1, Ops: []c12Op{{K: "ext", Fn: "inc", ID: "j", N: p.K}}}}
+	}
+	call := c12Op{K: "call", Name: "f", ArgsPath: p.ArgsPath, Args: plainWire(args)}
+	body := &c12Act{Name: "body"}
+	if p.Log && p.Mode != "exec" {
+		body.Ops = append(body.Ops, c12Op{K: "log", Msg: "L:" + p.in()})
+	}
+	if p.Place == "child" {
+		body.Children = []c12Act{{Name: "docall", Order: 1, Ops: []c12Op{call}}}
+	} else {
+		body.Ops = append(body.Ops, call)
+	}
+	out := []c12Op{{K: "define", Name: "f", Body: f}}
+	switch p.Mode {
+	case "loop":
+		out = append(out, c12Op{K: "loop", Test: "{{ .i_go }}", Body: body,
+			Post: &c12Act{Name: "post", Ops: []c12Op{{K: "ext", Fn: "inc", ID: "i", N: p.N}}}})
+	case "foreach":
+		op := c12Op{K: "forEach", Var: p.Var, Body: body}
+		if p.Query {
+			op.Query = &c12VoR{Val: "xs"}
+		} else {
+			its := []c12VoR{}
+			for _, s := range p.Items {
+				its = append(its, c12VoR{Val: s})
+			}
+			op.Items = &its
+		}
+		out = append(out, op)
+	default: // exec: the SAME call operation executed n times, the counter advanced in between
+		for m := 0; m < p.N; m++ {
+			out = append(out, call, c12Op{K: "ext", Fn: "inc", ID: "i", N: p.N})
+		}
+	}
+	return out
+}
+
+// expected (r / l / t) events and, per top-level Execute call, whether it returns an error — in closed form
+func (p *c14CallRep) expect() (evs [][]any, errs []bool, runs int) {
+	// the m-th run (1-based) of the callable with input text v; true = it fails
+	inv := func(m int, v string) bool {
+		runs++
+		msg := "f:" + v
+		if p.Nested {
+			msg += "/s" + v + "."
+		}
+		if p.Const {
+			msg += "/C"
+		}
+		evs = append(evs, []any{"l", msg})
+		if p.K > 0 {
+			evs = append(evs, []any{"r", "j"}, []any{"t", "{{ .j_end }}", m >= p.K})
+			return m >= p.K
+		}
+		return false
+	}
+	// one pass through the loop / forEach body; Call is declared before Log in the operation set
+	body := func(m int, v string) bool {
+		if p.Log && p.Place == "child" {
+			evs = append(evs, []any{"l", "L:" + v})
+		}
+		if inv(m, v) {
+			return true
+		}
+		if p.Log && p.Place != "child" {
+			evs = append(evs, []any{"l", "L:" + v})
+		}
+		return false
+	}
+	errs = []bool{false} // define
+	switch p.Mode {
+	case "loop":
+		for i := 0; ; i++ {
+			evs = append(evs, []any{"t", "{{ .i_go }}", i < p.N})
+			if !(i < p.N) {
+				return evs, append(errs, false), runs
+			}
+			if body(i+1, strconv.Itoa(i)) {
+				return evs, append(errs, true), runs
+			}
+			evs = append(evs, []any{"r", "i"})
+		}
+	case "foreach":
+		for m, it := range p.Items {
+			if body(m+1, it) {
+				return evs, append(errs, true), runs
+			}
+		}
+		return evs, append(errs, false), runs
+	default:
+		for m := 0; m < p.N; m++ {
+			errs = append(errs, inv(m+1, strconv.Itoa(m)), false)
+			evs = append(evs, []any{"r", "i"})
+		}
+		return evs, errs, runs
+	}
+}
+
+// the counters written by the harness' own `inc` action (not by the mechanism under test)
+func c14StripCounters(w W) W {
+	m, ok := wireCont(deepCopyW(w))
+	if !ok {
+		return w
+	}
+	for _, k := range []string{"i", "i_go", "i_end", "j", "j_go", "j_end"} {
+		delete(m, k)
+	}
+	return map[string]any{"m": m}
+}
+
 // ---------------------------------------------------------------- define / call sequences
 
 type c14Defs struct {
@@ -680,6 +856,42 @@ func c14Run(c *Ctx) {
 		p.Inner = pick(r, []*string{sp("in"), sp("in.ner"), sp("x.y.z"), sp("p2")})
 		c.Do("call", p)
 	}
+	// the smallest records first (so that a failure is reported on a minimal one), then random ones
+	for _, mode := range []string{"loop", "foreach", "exec"} {
+		for _, place := range []string{"ops", "child"} {
+			for n := 0; n <= 3; n++ {
+				p := c14CallRep{Mode: mode, Place: place, N: n}
+				if mode == "foreach" {
+					p.N, p.Items = 0, strs[:n]
+				}
+				c.Do("callrep", p)
+			}
+		}
+	}
+	for i := 0; i < c.N(500); i++ {
+		c.Tick()
+		p := c14CallRep{Mode: pick(r, []string{"loop", "loop", "foreach", "foreach", "exec"}), Place: pick(r, []string{"ops", "child"}),
+			N: r.Intn(5), ArgsPath: pick(r, []*string{nil, nil, sp("p"), sp("p.q"), sp("{{ .where }}"), sp("a_b.c9")}),
+			Nested: r.Intn(2) == 0, Const: r.Intn(2) == 0, Log: r.Intn(3) == 0}
+		if p.Mode == "foreach" {
+			p.N = 0
+			perm := r.Perm(len(strs))
+			for j, n := 0, r.Intn(5); j < n; j++ {
+				p.Items = append(p.Items, strs[perm[j]])
+			}
+			if len(p.Items) > 0 && r.Intn(5) == 0 { // an item may occur twice
+				p.Items = append(p.Items, p.Items[0])
+			}
+			p.Query = r.Intn(2) == 0
+			if r.Intn(3) > 0 {
+				p.Var = sp(pick(r, []string{"it", "item", "v_1", "forEach"}))
+			}
+		}
+		if r.Intn(4) == 0 {
+			p.K = 1 + r.Intn(4)
+		}
+		c.Do("callrep", p)
+	}
 	alphabet := []string{"d1", "d2", "dg", "cf", "cg", "cn"}
 	if c.Thorough() && !c.searchMode {
 		// all sequences of length <= 4
@@ -751,6 +963,8 @@ func c14Eval(c *Ctx, kind string, raw []byte) {
 		// compare traces as multisets (container query: Go map order)
 		multiset bool
 		skipTr   bool
+		// makes several top-level entries one and the same operation value
+		share func(acts []pipeline.Action)
 	)
 	switch kind {
 	case "foreach":
@@ -853,6 +1067,62 @@ func c14Eval(c *Ctx, kind string, raw []byte) {
 			c.Direct("call-no-other-data-disturbed"+v, c14FlatWire(run.dataWire()) == c14FlatWire(data),
 				map[string]any{"before": data, "after": run.dataWire()})
 		}
+	case "callrep":
+		var p c14CallRep
+		if err := json.Unmarshal(raw, &p); err != nil {
+			panic(err)
+		}
+		if p.N < 0 || p.N > 20 {
+			p.N = 3
+		}
+		if p.K < 0 {
+			p.K = 0
+		}
+		switch p.Mode {
+		case "loop", "foreach", "exec":
+		default:
+			p.Mode = "exec"
+		}
+		data, prog = p.data(), p.prog()
+		want, wantErrs, runs := p.expect()
+		if runs >= 2 {
+			c.Nontrivial()
+		}
+		c.Dist("callrep:mode:" + p.Mode + "/" + p.Place)
+		c.Dist(fmt.Sprintf("callrep:runs:%d", runs))
+		c.Dist("callrep:path:" + p.path())
+		if p.Mode == "exec" {
+			// one operation VALUE executed repeatedly (the model has no notion of identity: equal entries)
+			share = func(acts []pipeline.Action) {
+				first := -1
+				for i := range prog {
+					if prog[i].K != "call" {
+						continue
+					}
+					if first < 0 {
+						first = i
+					} else {
+						acts[i] = acts[first]
+					}
+				}
+			}
+		}
+		direct = func(run *c12RunRes, v string) {
+			got := c14Project(run.tr)
+			// "call runs the named callable with its rendered arguments visible at the arguments path" — every time it runs
+			c.Direct("call-rendered-arguments-every-run"+v, canon(got) == canon(want), map[string]any{"got": got, "want": want})
+			var gotErrs []bool
+			for _, e := range run.errs {
+				gotErrs = append(gotErrs, e != nil)
+			}
+			c.Direct("call-error-iff-failure"+v, canon(gotErrs) == canon(wantErrs), map[string]any{"got": gotErrs, "want": wantErrs, "errs": fmt.Sprint(run.errs)})
+			c.Direct("call-arguments-gone"+v, run.data.Lookup(p.path()) == nil, map[string]any{"path": p.path(), "data": run.dataWire()})
+			if p.Mode == "foreach" {
+				c.Direct("forEach-variable-gone"+v, run.data.Lookup(c14VarName(p.Var)) == nil, map[string]any{"var": c14VarName(p.Var), "data": run.dataWire()})
+			}
+			c.Direct("call-no-other-data-disturbed"+v, c14FlatWire(c14StripCounters(run.dataWire())) == c14FlatWire(c14StripCounters(data)),
+				map[string]any{"before": data, "after": run.dataWire()})
+		}
 	case "defs":
 		var p c14Defs
 		if err := json.Unmarshal(raw, &p); err != nil {
@@ -946,6 +1216,9 @@ func c14Eval(c *Ctx, kind string, raw []byte) {
 		}
 		if !ok {
 			continue
+		}
+		if share != nil {
+			share(acts)
 		}
 		run := c12Exec(data, acts, false)
 		if strings.HasPrefix(run.text, "runaway") {
